@@ -5,6 +5,7 @@ import (
 	"go/ast"
 	"go/constant"
 	"go/token"
+	"go/types"
 	"reflect"
 	"regexp"
 	"sort"
@@ -172,6 +173,10 @@ func propC20(c *Ctx, r *Report) {
 	r.rule("C20/json-templates", 4, "expected-length templates agree with the decoded keys")
 	templateAgreement(c, r, "C20/json-templates")
 
+	// mutually exclusive keys are never counted together
+	r.rule("C20/exclusive-keys", 1, "the expected length never counts both transfers and conversion")
+	exclusiveKeys(c, r, "C20/exclusive-keys")
+
 	// Validate table
 	r.rule("C20/validate-table", 8, "exactly one of transfers or conversion; same-type conversion rejected")
 	tv := c.fn("fat2.Transaction.Validate")
@@ -269,6 +274,25 @@ func propC20(c *Ctx, r *Report) {
 	}
 	ruleValidateBounds(c, r, "C20/transfer-sum-exact")
 
+	// the string converted is the string the user typed
+	r.rule("C20/cli-amount-provenance", 2, "amount strings reach FactoidToFactoshi untransformed")
+	for _, e := range c.callSitesOf(c.fn("cmd.FactoidToFactoshi")) {
+		ci := e.Site.(ssa.CallInstruction)
+		var trans []string
+		backSlice(ci.Common().Args[0], func(v ssa.Value) bool {
+			if call, ok := v.(*ssa.Call); ok {
+				n := calleeName(call.Common())
+				if b, ok := call.Call.Signature().Results().At(0).Type().Underlying().(*types.Basic); call.Call.Signature().Results().Len() > 0 && ok && b.Kind() == types.String {
+					if !strings.Contains(n, "pflag.") && !strings.Contains(n, "cobra.") && !strings.Contains(n, "viper.") {
+						trans = append(trans, n)
+					}
+				}
+			}
+			return true
+		})
+		r.check(len(trans) == 0, "C20/cli-amount-provenance", fmt.Sprintf("%s -> FactoidToFactoshi", fname(e.Caller)), c.ipos(ci), "argument is the command-line string itself", "the amount string is rewritten by "+strings.Join(uniq(trans), ", ")+" before it is converted: what is signed need not be what the user typed")
+	}
+
 	// command line amounts
 	r.rule("C20/cli-amounts", 2, "FactoidToFactoshi converts exactly or rejects")
 	ftf := c.fn("cmd.FactoidToFactoshi")
@@ -329,4 +353,97 @@ func propC20(c *Ctx, r *Report) {
 			r.check(guarded, "C20/cli-amounts", fmt.Sprintf("scaling multiplication %s overflow-guarded", ord(i+1)), c.ipos(m), "", "integer multiplication "+valueDesc2(m.X)+" * "+valueDesc2(m.Y)+" without a dominating range check: the product wraps modulo 2^64 (e.g. \"184467440738\" FCT becomes a small number)")
 		}
 	}
+}
+
+// exclusiveKeys: in Transaction.UnmarshalJSON the value compared with len(data) is a sum of lengths; on no
+// path may it contain both len(tRaw.Transfers) and len(tRaw.Conversion).
+func exclusiveKeys(c *Ctx, r *Report, rule string) {
+	um := c.fn("fat2.Transaction.UnmarshalJSON")
+	// the comparison expectedJSONLen != len(data)
+	var sum ssa.Value
+	allInstrs(um, func(ins ssa.Instruction) {
+		bo, ok := ins.(*ssa.BinOp)
+		if !ok || (bo.Op != token.NEQ && bo.Op != token.EQL) {
+			return
+		}
+		for _, pair := range [][2]ssa.Value{{bo.X, bo.Y}, {bo.Y, bo.X}} {
+			if lc, ok := pair[1].(*ssa.Call); ok {
+				if bi, ok := lc.Call.Value.(*ssa.Builtin); ok && bi.Name() == "len" && isIntType(pair[0].Type()) && sliceHas(lc.Call.Args[0], func(v ssa.Value) bool { p, ok := v.(*ssa.Parameter); return ok && p.Name() == "data" }) {
+					sum = pair[0]
+				}
+			}
+		}
+	})
+	if sum == nil {
+		r.viol(rule, "Transaction.UnmarshalJSON length comparison", c.pos(um.Pos()), "no comparison of an expected length with len(data) found: duplicate and unknown keys are not rejected")
+		return
+	}
+	// alternatives: sets of raw fields whose length contributes
+	type set map[string]bool
+	var alts func(v ssa.Value, depth int) []set
+	alts = func(v ssa.Value, depth int) []set {
+		if depth > 12 {
+			return []set{{"?": true}}
+		}
+		switch x := v.(type) {
+		case *ssa.Const:
+			return []set{{}}
+		case *ssa.BinOp:
+			if x.Op == token.ADD {
+				var out []set
+				for _, a := range alts(x.X, depth+1) {
+					for _, b := range alts(x.Y, depth+1) {
+						m := set{}
+						for k := range a {
+							m[k] = true
+						}
+						for k := range b {
+							m[k] = true
+						}
+						out = append(out, m)
+					}
+				}
+				return out
+			}
+		case *ssa.Phi:
+			// a phi that depends on itself is a loop accumulation: everything added in the loop can be counted together
+			var out []set
+			for _, e := range x.Edges {
+				if e == v {
+					continue
+				}
+				out = append(out, alts(e, depth+1)...)
+			}
+			return out
+		case *ssa.Call:
+			if bi, ok := x.Call.Value.(*ssa.Builtin); ok && bi.Name() == "len" {
+				tp := typePath(x.Call.Args[0])
+				if tp == "" {
+					tp = valuePath(x.Call.Args[0])
+				}
+				if i := strings.LastIndex(tp, "."); i >= 0 {
+					tp = tp[i+1:]
+				}
+				return []set{{tp: true}}
+			}
+		case *ssa.Convert:
+			return alts(x.X, depth+1)
+		}
+		return []set{{"?": true}}
+	}
+	var bad []string
+	n := 0
+	for _, a := range alts(sum, 0) {
+		n++
+		if a["Transfers"] && a["Conversion"] {
+			bad = append(bad, "an accepted length counts both the transfers and the conversion key: a transaction carrying both keys can be accepted")
+		}
+		if a["?"] {
+			bad = append(bad, "the expected length is not a sum of constant template lengths and raw field lengths (computed in a loop or by a helper): which keys may occur together is not decided by the length test")
+		}
+		if !a["Input"] {
+			bad = append(bad, "an accepted length does not count the input")
+		}
+	}
+	r.check(len(bad) == 0 && n >= 2, rule, "Transaction.UnmarshalJSON expected length alternatives", c.pos(um.Pos()), fmt.Sprintf("%d alternatives, none with both keys", n), strings.Join(uniq(bad), "; "))
 }
